@@ -101,6 +101,20 @@ def body(ctx: H.BaseCtx):
     ctx.expect_model(r, exp, "result")
     check_invariants(ctx, r, "result")
     check_unmodified(ctx, ops, snap)
+    # the in-place spelling of the same operation (a op= b on a private copy of a): refused, or the same polynomial
+    expr = case["expr"]
+    if isinstance(expr, list) and expr[0] in ("add", "sub", "mul") and isinstance(expr[1], int) and isinstance(expr[2], int) and isinstance(r, numpoly.ndpoly):
+        import operator
+
+        a0, b0 = ops[expr[1]], ops[expr[2]]
+        if isinstance(a0, numpoly.ndpoly) and a0.dtype == r.dtype and tuple(a0.shape) == tuple(r.shape):
+            try:
+                x = {"add": operator.iadd, "sub": operator.isub, "mul": operator.imul}[expr[0]](a0.copy(), b0)
+            except Exception:
+                x = None  # no room for the result in a: refusing is allowed
+            if x is not None:
+                ctx.expect_model(x, exp, "in-place operator (returned instead of refusing)")
+            check_unmodified(ctx, ops, snap)
     # ring laws as direct cross-checks (same symbolic operands, same path)
     for law in case.get("laws", []):
         try:
